@@ -33,6 +33,11 @@ def run(ctx):
                 "the `element already in place` edge (loop invariant: all earlier positions are final) and swaps "
                 "level views, to_pre and target_order together.")
     esort.run(ctx, F)
+    ctx.explain("E-PERM.relabel: the parallel relabelling pass (update_levels) builds its work list from the position of each "
+                "level (LevelView::level_no), never from the stale number in to_pre, and the worker closure relabels the level "
+                "looked up from the work-list element.")
+    n = esort.check_relabel_worklist(ctx, F)
+    ctx.floor("E-PERM.relabel", "work-list obligations", n, 2)
     ctx.explain("E-TABLE.skip: DiagramRules::skipped_cofactor of every kind (override or trait default) is interpreted and must "
                 "yield the cofactors of an edge w.r.t. a variable above its node under the kind's semantics of a skipped level "
                 "(don't-care; zero-suppressed for ZBDDs); level_swap splits children below the lower level through it.")
